@@ -1,0 +1,23 @@
+//go:build verif
+
+package otto
+
+import "unicode/utf16"
+
+// VerifStringUnits returns the UTF-16 code units of a string Value exactly as
+// it is held: a []uint16 string (the result of String.fromCharCode) is
+// returned as is, a Go string is encoded with utf16.Encode.  The second result
+// is false when the value is not a string.  Verification hook (build tag
+// verif): adds code only, changes no behaviour.
+func VerifStringUnits(v Value) ([]uint16, bool) {
+	if v.kind != valueString {
+		return nil, false
+	}
+	switch s := v.value.(type) {
+	case string:
+		return utf16.Encode([]rune(s)), true
+	case []uint16:
+		return append([]uint16(nil), s...), true
+	}
+	return nil, false
+}
